@@ -9,6 +9,7 @@ from harness.lib import scen
 from harness.lib.core import Ctx, lean_lock
 from harness.props import c05
 from harness.rigs import request as rig
+from harness.rigs import request_siblings as sibs
 
 MANIFEST = {
     "text": "Lean 4 proof, for every request tree, validator valuation and request, that the model of RequestManager.check_valid is true "
@@ -73,16 +74,32 @@ def env_level(ctx: Ctx):
     shipped = scen.shipped()
     names = [n for n in MASK_SCEN if n in shipped][: ctx.scale(2, 3)]
     total = agree = executed = stepped = 0
-    for name, order in [(n, o) for n in names for o in (("as-listed", "shuffled") if not ctx.thorough else ("as-listed", "shuffled", "reversed"))]:
+    variants = [(n, o) for n in names for o in (("as-listed", "shuffled") if not ctx.thorough else ("as-listed", "shuffled", "reversed"))]
+    # sibling-divergence family: the same scenarios with an action map that aims every target-taking action type at >= 2 siblings
+    # (two files of a folder, two folders / services / applications of a host, two ports of a router), driven apart by the history
+    variants += [(n, "siblings") for n in [n for n in MASK_SCEN if n in shipped][: ctx.scale(3, 3)] for _ in range(ctx.scale(1, 3))]
+    if any(not o["ok"] for o in ctx.obligations):   # search stage: a tie or proof obligation is broken -> more sibling histories
+        variants += [(n, "siblings") for n in names for _ in range(2)]
+    for name, order in variants:
+        sib, sib_seed = None, None
         try:
             cfg = scen.load_cfg(shipped[name])
-            relisted = _relist_action_maps(cfg, order, rng)
+            if order == "siblings":
+                sib_seed = rng.below(10 ** 6)
+                cfg, sib = sibs.sibling_cfg(cfg, sib_seed)
+                relisted = 0
+                ctx.count("siblings:entries-added", sib["added"])
+            else:
+                relisted = _relist_action_maps(cfg, order, rng)
             env = scen.make_env(cfg)
         except Exception as e:
             ctx.notes.append(f"scenario {name} not buildable as env: {type(e).__name__}: {str(e)[:100]}")
             continue
         key_order = [list(((a.get("action_space") or {}).get("action_map") or {}).keys()) for a in cfg.get("agents", [])]
         base_name = name
+        rp0 = {"scenario": base_name, "key_order": key_order}
+        if sib is not None:
+            rp0["siblings"] = sib_seed
         ctx.count(f"action-map-order:{order}")
         ctx.count("action-map-entries-listed-out-of-ascending-order", relisted)
         name = f"{name}[{order}]"
@@ -102,7 +119,7 @@ def env_level(ctx: Ctx):
                                   f"{name} reset before ep{ep}: env.action_masks() right after reset() differs from the mask of the new "
                                   f"episode's state at {len(bad)} entries, e.g. action {bad[0]} {amap[bad[0]][0]} {amap[bad[0]][1]}: "
                                   f"handed out {after[bad[0]]}, state says {fresh[bad[0]]}",
-                                  {"mode": "mask-reset", "scenario": base_name, "key_order": key_order, "seed": prev_seed,
+                                  {"mode": "mask-reset", **rp0, "seed": prev_seed,
                                    "actions": list(taken), "reset_seed": ep_seed})
             else:
                 env.reset(seed=ep_seed)
@@ -113,8 +130,20 @@ def env_level(ctx: Ctx):
             # bias towards power/service transitions so that transitional states are visited
             trans = [i for i, (ident, _) in amap.items() if any(k in ident for k in ("shutdown", "startup", "reset", "restart", "stop",
                                                                                        "install", "disable", "remove"))]
-            for step in range(ctx.scale(25, 120) if order == "as-listed" else ctx.scale(12, 60)):
+            raws: List[List[Any]] = []
+            if sib is not None:   # drive SIBLINGS apart: delete one file of a folder, stop one service of a host, one folder of two …
+                trans = sibs.diverging(amap, sib["first"]) or trans
+                raws = sibs.raw_divergers(sib["hosts"])
+            for step in range(ctx.scale(25, 120) if order == "as-listed" else (ctx.scale(30, 90) if sib is not None else ctx.scale(12, 60))):
                 sim = env.game.simulation
+                if raws and rng.chance(1, 5):
+                    q = rng.choice(raws)
+                    try:
+                        sim.apply_request(list(q))
+                    except Exception:
+                        pass
+                    taken.append(list(q))
+                    ctx.count("siblings:raw-folder-request")
                 mask = list(env.action_masks())
                 if len(mask) != n_actions or sorted(amap) != list(range(n_actions)):
                     ctx.violation({"kind": "mask-length-or-numbering", "len": len(mask), "n": n_actions},
@@ -136,11 +165,11 @@ def env_level(ctx: Ctx):
                             ctx.violation({"kind": "mask-disagrees-with-execution", "mask": int(mask[i]), "outcome": out.split()[0],
                                            "action": ident},
                                           f"{name} ep{ep} step{step}: action {i} {ident} {opts}: mask={int(mask[i])} but __call__ -> {out}",
-                                          {"mode": "mask-env", "scenario": base_name, "key_order": key_order, "seed": ep_seed,
+                                          {"mode": "mask-env", **rp0, "seed": ep_seed,
                                            "actions": list(taken), "episode": ep, "step": step, "action_index": i, "req": req})
                 # executed-action oracle: the mask bit computed immediately before REALLY executing the entry's request
-                fileops = [i for i, (ident, _) in amap.items() if "file" in ident or "folder" in ident]
-                for _ in range(ctx.scale(3, 6)):
+                fileops = [i for i, (ident, _) in amap.items() if ("file" in ident or "folder" in ident) and (sib is None or i >= sib["first"])]
+                for _ in range(ctx.scale(3, 6) if sib is None else 1):
                     i = rng.choice(fileops) if fileops and rng.chance(1, 2) else rng.below(n_actions)
                     ident, opts = amap[i]
                     req = env.agent.action_manager.form_request(ident, opts)
@@ -162,14 +191,16 @@ def env_level(ctx: Ctx):
                     if bit and (by_rule or st == "unreachable"):
                         ctx.violation({"kind": "allowed-action-refused-by-rule", "action": ident, "status": st},
                                       f"{name} ep{ep} step{step}: mask allowed action {i} {ident} {opts} but it was refused: {st} {reason!r}",
-                                      {"mode": "mask-exec", "scenario": base_name, "key_order": key_order, "seed": ep_seed,
+                                      {"mode": "mask-exec", **rp0, "seed": ep_seed,
                                        "actions": list(taken[:-1]), "episode": ep, "step": step, "action_index": i, "req": req, "reason": reason})
                     if not bit and st == "success":
                         ctx.violation({"kind": "masked-out-action-succeeded", "action": ident},
                                       f"{name} ep{ep} step{step}: masked-out action {i} {ident} {opts} succeeded",
-                                      {"mode": "mask-exec", "scenario": base_name, "key_order": key_order, "seed": ep_seed,
+                                      {"mode": "mask-exec", **rp0, "seed": ep_seed,
                                        "actions": list(taken[:-1]), "episode": ep, "step": step, "action_index": i, "req": req})
                 a = rng.choice(trans) if trans and rng.chance(1, 2) else rng.below(n_actions)
+                if sib is not None and not rng.chance(1, 6):   # stay among the sibling entries
+                    a = rng.choice(trans) if rng.chance(1, 2) else sib["first"] + rng.below(sib["added"])
                 # stepped-action oracle: the mask the USER holds (read before the step) against what `env.step(a)` does with
                 # action a — "executing it now" includes whatever the step does before the agent acts (pre_timestep)
                 v = _stepped_action_check(env, int(a))
@@ -180,7 +211,7 @@ def env_level(ctx: Ctx):
                     ctx.violation({"kind": v["violation"], "action": ident, "status": v["status"]},
                                   f"{name} ep{ep} step{step}: env.step({int(a)}) = {ident} {opts}: mask bit read before the step = {v['bit']}, "
                                   f"answer {v['status']} {v['reason']!r}",
-                                  {"mode": "mask-step", "scenario": base_name, "key_order": key_order, "seed": ep_seed,
+                                  {"mode": "mask-step", **rp0, "seed": ep_seed,
                                    "actions": list(taken), "episode": ep, "step": step, "action_index": int(a)})
                 taken.append(int(a))
         # countdown-boundary family: a trigger (restart / shutdown / startup / reset) followed, after k idle steps for every k around
@@ -223,7 +254,7 @@ def env_level(ctx: Ctx):
                         ctx.violation({"kind": v["violation"], "action": amap[f][0], "status": v["status"], "after": amap[t][0]},
                                       f"{name}: {amap[t][0]} {amap[t][1]}, {k} idle steps, then env.step({f}) = {amap[f][0]} {amap[f][1]}: mask bit "
                                       f"read before the step = {v['bit']}, answer {v['status']} {v['reason']!r}",
-                                      {"mode": "mask-step", "scenario": base_name, "key_order": key_order, "seed": ep_seed,
+                                      {"mode": "mask-step", **rp0, "seed": ep_seed,
                                        "actions": [int(x) for x in plan], "episode": -1, "step": len(plan), "action_index": int(f)})
         env.close()
     ctx.cov["mask_entries_compared"] = total
@@ -240,6 +271,8 @@ def replay(rec: dict) -> bool:
     # rebuild the environment with the recorded listing order of every action map, re-seed, re-take the recorded actions, and
     # compare the mask bit of the recorded entry with what __call__ does (stubbed handlers) at that state
     cfg = scen.load_cfg(scen.shipped()[rp["scenario"]])
+    if rp.get("siblings") is not None:
+        cfg, _ = sibs.sibling_cfg(cfg, rp["siblings"])
     for a, keys in zip(cfg.get("agents", []), rp["key_order"]):
         am = (a.get("action_space") or {}).get("action_map")
         if isinstance(am, dict) and keys:
